@@ -90,6 +90,10 @@ type Run struct {
 	only    string
 	start   time.Time
 	units   []*UnitResult
+	canarySat     int
+	canaryUnknown int
+	vacuous       []string
+	scanProblems  []string
 }
 
 func (r *Run) selectDecls() []*Decl {
@@ -180,7 +184,45 @@ func (r *Run) execute() int {
 			}()
 		}
 	}
+	// vacuity canaries: the hypotheses of the last obligation of every unit must be satisfiable
+	type canary struct {
+		u *UnitResult
+		o *Obligation
+	}
+	var cans []*canary
+	for _, u := range r.units {
+		var last *Obligation
+		for _, o := range u.Obls {
+			if o.Batch == nil && len(o.Hyps) > 0 {
+				last = o
+			}
+		}
+		if last == nil {
+			continue
+		}
+		c := &canary{u, &Obligation{Name: u.Name + "/canary", Kind: "canary", Fn: u.Name, Hyps: last.Hyps, Goal: tFalse, Reveal: last.Reveal}}
+		cans = append(cans, c)
+		wg.Add(1)
+		go func() {
+			defer wg.Done()
+			dis.sem <- struct{}{}
+			defer func() { <-dis.sem }()
+			rr := dis.run1(c.o.Name, c.o.Hyps, c.o.Goal, nil, 5, c.o.Reveal)
+			c.o.Status = rr.status
+		}()
+	}
 	wg.Wait()
+	for _, c := range cans {
+		switch c.o.Status {
+		case "sat":
+			r.canarySat++
+		case "unsat":
+			r.vacuous = append(r.vacuous, c.u.Name)
+		default:
+			r.canaryUnknown++
+		}
+	}
+	r.scanProblems = w.checkEstablishedBy()
 	return r.report()
 }
 
